@@ -41,7 +41,7 @@ var (
 	c07SDK        = []string{"2026-07-28", "2025-11-25", "2025-06-18", "2025-03-26", "2024-11-05"}
 	c07Requested  = []string{"", "2026-07-28", "2025-11-25", "2025-06-18", "2025-03-26", "2024-11-05", "2020-01-01", "2025-07-01", "2099-12-31", "zzz", "1.0", "2026-07-29", c07EmptyOptions}
 	c07Transports = []string{"mem", "mem-legacy", "pipe", "pipe-legacy", "sse", "http", "http-json", "http-es", "http-json-es", "http-nosid", "http-nosid-json", "http-stateless", "http-stateless-json", "http-stateless-es"}
-	c07Priors     = []string{"none", "stateless-first", "stateful-open", "stateless-open", "sse-first", "trimmed-probe"}
+	c07Priors     = []string{"none", "stateless-first", "stateful-open", "stateless-open", "sse-first", "trimmed-probe", "same-client-sse-first"}
 	c07Discovers  = []string{"ok", "notfound", "invalid-params", "unsupported-data", "unsupported-data-always", "unsupported-nodata", "internal", "unsupported-data-sdkwide"}
 	c07Sets       = [][]string{
 		{"2026-07-28", "2025-11-25", "2025-06-18", "2025-03-26", "2024-11-05"},
@@ -53,6 +53,9 @@ var (
 		{"2027-01-01", "2026-07-28", "2025-11-25"},
 		{"2027-01-01", "2025-06-18"},
 		{},
+		// the order of the list is not prescribed: oldest first, and the modern version last
+		{"2024-11-05", "2025-03-26", "2025-06-18", "2025-11-25", "2026-07-28"},
+		{"2025-11-25", "2026-07-28"},
 	}
 	c07Inits = []string{"std", "unknown-version", "error", "future-version", "echo"}
 )
@@ -212,6 +215,7 @@ func runC07Real(c *vh.Case, spec c07Spec) {
 	var waits []func()
 	var closers []func()
 
+	client := c07Client(spec.Handlers)
 	// ---- an earlier connection to the same Server through another transport
 	connectHTTP := func(ho *mcp.StreamableHTTPOptions, client *mcp.Client, copts *mcp.ClientSessionOptions) (*mcp.ClientSession, error) {
 		h := mcp.NewStreamableHTTPHandler(get, ho)
@@ -251,6 +255,9 @@ func runC07Real(c *vh.Case, spec c07Spec) {
 		var pcs *mcp.ClientSession
 		var err error
 		switch spec.Prior {
+		case "same-client-sse-first":
+			// the very Client object under test has served a legacy-only endpoint before (and fell back there)
+			pcs, err = connectSSE(client, nil)
 		case "stateless-first", "stateless-open":
 			pcs, err = connectHTTP(&mcp.StreamableHTTPOptions{Stateless: true}, c07Client(false), nil)
 		case "stateful-open":
@@ -263,7 +270,7 @@ func runC07Real(c *vh.Case, spec c07Spec) {
 			return
 		}
 		want := c07Modern
-		if spec.Prior == "stateful-open" || spec.Prior == "sse-first" {
+		if spec.Prior == "stateful-open" || spec.Prior == "sse-first" || spec.Prior == "same-client-sse-first" {
 			want = "2025-11-25"
 		}
 		if got := pcs.InitializeResult().ProtocolVersion; got != want {
@@ -280,7 +287,6 @@ func runC07Real(c *vh.Case, spec c07Spec) {
 
 	// ---- the connection under test
 	copts := c07Options(spec.Requested)
-	client := c07Client(spec.Handlers)
 	var cs *mcp.ClientSession
 	var err error
 	modernCapable := true
